@@ -266,9 +266,8 @@ def rule_volatility(chk, ea, rid):
     overlay = []
     for n in cfg.nodes:
         a = n.ast
-        if n.kind == "stmt" and isinstance(a, ast.Assign) and U(a.targets[0]).replace('"', "'") == "metadata['attributes']" \
-                and "cmd_metadata.attributes" in U(a.value):
-            overlay.append(n.id)
+        if n.kind == "stmt" and isinstance(a, (ast.Assign, ast.Expr)) and "cmd_metadata.attributes" in U(a):
+            overlay.append(n.id)      # dict(<filtered>, **cmd_metadata.attributes) or <filtered>.update(cmd_metadata.attributes), wherever it is held
     chk.ob(rid, C, len(overlay) >= 1, "the command's own attributes (incl. `volatile`) are overlaid on the result "
            "attributes", fn, ea.mod, key="attribute-overlay")
     upd = [cfg.node_of(c) for c in calls_in(fn, tail="update") if call_recv(c) == "state.metadata"
@@ -278,9 +277,8 @@ def rule_volatility(chk, ea, rid):
                "overlaid attributes are merged into the state (state.metadata.update(metadata)) before "
                "volatility is read", cfg.nodes[o].ast, ea.mod, key="overlay-merged-before-set_volatile")
         # the overlay must come after the capital-letter filter (else the filter would drop `volatile`)
-        filt = [n.id for n in cfg.nodes if n.kind == "stmt" and isinstance(n.ast, ast.Assign)
-                and U(n.ast.targets[0]).replace('"', "'") == "metadata['attributes']" and n.id != o
-                and "isupper" in U(n.ast.value)]
+        filt = [n.id for n in cfg.nodes if n.kind == "stmt" and isinstance(n.ast, ast.Assign) and n.id != o
+                and isinstance(n.ast.value, ast.DictComp) and "isupper" in U(n.ast.value)]
         for f in filt:
             chk.ob(rid, C, not cfg.can_reach(o, f), "the persistence filter runs before the overlay",
                    cfg.nodes[f].ast, ea.mod, key="filter-before-overlay")
